@@ -37,8 +37,9 @@
 //! foreign table scan, or the direct scan had a non-trivial projection / filter / limit.
 //!
 //! GENUINE FINDINGS (open in /verif/known_findings.json, cases under regressions/C45/c45c/):
-//!  * `udaf-default-value-not-carried` — wrong rows with a foreign `count` in a decorrelated scalar subquery
-//!    (see c45b.rs). Attribution is verified in the run: the same case with the aggregates whose value over no
+//!  * `udaf-default-value-not-carried` — wrong rows with a foreign `count` in a decorrelated scalar subquery, and an
+//!    execution error ("declared as non-nullable but contains null values") for `count(..) OVER (.. ROWS BETWEEN
+//!    UNBOUNDED PRECEDING AND 1 PRECEDING)`, whose empty first frame takes the aggregate's default_value (see c45b.rs). Attribution is verified in the run: the same case with the aggregates whose value over no
 //!    rows is not NULL kept native must agree with the native rows, otherwise it is an ordinary violation.
 //!  * `ffi-provider-unserializable-filter` — `ForeignTableProvider::supports_filters_pushdown` serialises the
 //!    candidate filters with datafusion-proto and propagates the failure; `x = ANY (subquery)` in a select list
@@ -57,6 +58,12 @@
 //!      abort (exit 134 → `./check` exit 2): detected as a crash, not as a verdict
 //!  p17 FFI_PlanProperties drops the output ordering         → VIOLATION "plan properties of SortExec differ across the FFI"
 //!  p18 EmissionType::Final sent as Incremental              → VIOLATION "plan properties of ProjectionExec differ across the FFI"
+//!
+//! Side observation (not an FFI matter, C01/C03 territory): with a provider WITHOUT filter pushdown (plain MemTable,
+//! reproducible in datafusion-cli) `WITH c0 AS (..) SELECT (0 = (r3.id + r3.id)) AS k3 FROM t0 r3 WHERE NULL IN (SELECT ..)
+//! UNION ((SELECT (r7.id = r7.id) AS k4 FROM t0 r7) UNION (SELECT (r8.id = r8.id) AS k5 FROM t0 r8))` over empty tables
+//! fails with `Internal error: Physical input schema should be the same .. (physical) k4 vs (logical) k3`; the native
+//! reference provider therefore mirrors the pushdown capability of the FFI wrapper so both sides plan alike.
 //!
 //! Soundness notes: functions whose behaviour lives in `simplify()` (coalesce, nvl, nvl2, now,
 //! current_date, current_time, ...) cannot work through `ForeignScalarUDF`, which does not carry `simplify`;
